@@ -599,8 +599,8 @@ def gen_method_harness(cx, m, name_prefix=None):
         post += a.post
         cleanup += a.cleanup
         call_args.append("vs::cast(%s)" % a.expr)
-        if _mentions(pt, (Opt,)):
-            tags.add("C10")
+        if _mentions(pt, (Opt,)) or (isinstance(pt, (OpaqueRef, OpaqueBox)) and pt.optional):
+            tags.add("C10")        # an optional pointer parameter: NULL exactly when absent
         if _mentions(pt, (EnumT,)):
             tags.add("C11")
         if a.owned_by_rust:
